@@ -3,6 +3,7 @@ package rigu
 import (
 	"fmt"
 	"math/rand"
+	"strings"
 	"testing"
 
 	"verif/harness/evd"
@@ -133,6 +134,21 @@ func TestC08(t *testing.T) {
 		col.Case(evd.FP("sentence", ref.Render(toks)), true)
 		if i < nb && i%8 != 0 {
 			continue // mutate only a sample of the (very similar) basics
+		}
+		// keywords are case sensitive: every keyword token spelled in another case
+		// is just an identifier
+		for p := range toks {
+			if toks[p].Kind != ref.TIdent || !ref.KeywordLike(toks[p].Val) {
+				continue
+			}
+			for _, alt := range []string{strings.ToLower(toks[p].Val), strings.ToUpper(toks[p].Val), strings.ToUpper(toks[p].Val[:1]) + strings.ToLower(toks[p].Val[1:])} {
+				if alt == toks[p].Val {
+					continue
+				}
+				v := append([]ref.Tok{}, toks...)
+				v[p] = ref.Ident(alt)
+				checkAcceptance(col, v, st, "keyword-case")
+			}
 		}
 		// every single-token deletion, substitution and insertion
 		for p := 0; p <= len(toks); p++ {
